@@ -46,10 +46,12 @@ func scenarios(tier string) []svc.Scenario {
 		{Name: "subquery-tag", Program: []string{"import:P1+P2", "addtag:tag/b=cport:1", "addtag:tag/t=@sub:tag:b sport:@sub:sport@", "import:P3", "import:P4"}},
 		// a conversion job that finds everything cached already (its tag was re-evaluated without a new match)
 		// while more work is queued behind it
-		{Name: "converter-fruitless-job", Converter: true, Program: []string{"import:P1+P2", "addtag:tag/p=cport:1", "converters:tag/p=conv", "import:P5", "addtag:mark/m=id:1", "converters:mark/m=conv"}},
+		{Name: "converter-fruitless-job", Converter: true, Program: []string{"import:P1+P2", "addtag:tag/p=cport:1", "converters:tag/p=conv", "import:P5", "import:P4"}},
 		// the converter executable is deleted / rewritten while its conversion job is in flight
 		{Name: "converter-removed", Converter: true, Program: []string{"import:P1", "addtag:tag/p=cport:1", "converters:tag/p=conv", "convdel:conv", "import:P2"}},
 		{Name: "converter-restarted", Converter: true, Program: []string{"import:P1", "addtag:tag/p=cport:1", "converters:tag/p=conv", "convrestart:conv", "import:P3"}},
+		// a view is held while an import changes a tag's answer for a stream it shows and younger views evaluate the tag
+		{Name: "view-tag-snapshot", Program: []string{"addtag:tag/d=cdata:foo[23]", "import:P1+P2", "view.open:v1", "import:P3", "view.open:v2"}},
 		{Name: "two-tags", Program: []string{"addtag:tag/p=cport:1", "addtag:tag/d=cdata:foo3", "import:P1", "import:P3"}},
 	}
 	if tier == "thorough" {
@@ -288,8 +290,11 @@ func Replay(tier, scenario string, path []string) int {
 				}
 			}
 		}
-		show("initial")
-		for _, ev := range path {
+		lastOnly := os.Getenv("VERIF_REPLAY_LAST_ONLY") != ""
+		if !lastOnly {
+			show("initial")
+		}
+		for ei, ev := range path {
 			if ev == "drain" {
 				for len(w.ParkedNames()) != 0 {
 					k := w.ParkedNames()[0]
@@ -308,7 +313,9 @@ func Replay(tier, scenario string, path []string) int {
 			if strings.HasPrefix(ev, "api:") {
 				pc++
 			}
-			show(ev)
+			if !lastOnly || ei == len(path)-1 {
+				show(ev)
+			}
 		}
 		return 0
 	}
